@@ -50,8 +50,11 @@ COMPS = ("Ex", "Ey", "Ez", "Hx", "Hy", "Hz")
 
 @st.composite
 def case_strategy(draw, ctx):
-    two = draw(st.integers(0, 3)) == 0
-    axes = sorted(draw(st.permutations([0, 1, 2]))[: 2 if two else 1])
+    # two electric planes at once in every other case (their shared corner halo is a path of its own); the x-y pair,
+    # where co-located samples sit on both planes, is drawn as often as the other two pairs together
+    two = draw(st.booleans())
+    axes = (draw(st.sampled_from([[0, 1], [0, 1], [0, 2], [1, 2]])) if two
+            else [draw(st.integers(0, 2))])
     half = {a: draw(st.integers(5, 6 if two else 8)) for a in axes}
     shape = [2 * half[a] if a in axes else draw(st.integers(3, 5)) for a in range(3)]
     steps = draw(st.integers(1, min(half.values()) - 4))
